@@ -207,6 +207,29 @@ pub fn build_corpus() -> Corpus {
             other => crate::evidence::machinery_failure(&format!("corpus plan {} does not serialize to XML: {:?}", i + 1, other.map(|x| x.map(|b| b.len())))),
         }
     }
+    // files another writer could produce (the independent encoder of C04): classes without
+    // instances whose PROP chunks name migrating legacy properties, written before and after the
+    // properties they migrate to - rbx_binary's own writer never emits either
+    {
+        use crate::specbin::enc;
+        let p = &plans[0];
+        let mut e = enc::base_encoding(p);
+        e.empty_classes = vec![
+            ("SpawnLocation".into(), vec![("Color3uint8".into(), 0x1a), ("BrickColor".into(), 0x0b), ("Name".into(), 0x01)], true, true),
+            ("TextLabel".into(), vec![("Font".into(), 0x12), ("FontFace".into(), 0x20)], false, false),
+            ("MeshPart".into(), vec![("MeshId".into(), 0x01)], false, true),
+            ("ZzNoInstances".into(), vec![("Name".into(), 0x01), ("Whatever".into(), 0x03)], true, false),
+        ];
+        for c in [enc::Comp::None, enc::Comp::Lz4] {
+            e.comp = vec![c];
+            match enc::encode(p, &e) {
+                Ok(b) => {
+                    files.push(CorpusFile { kind: Kind::Bin, desc: format!("foreign-empty-classes/{:?}", c), bytes: b })
+                }
+                Err(err) => crate::evidence::machinery_failure(&format!("foreign corpus file: {}", err)),
+            }
+        }
+    }
     for (i, a) in [
         Attributes::new().with("a", true),
         Attributes::new().with("x", Variant::Float64(0.1)).with("", Variant::BinaryString(BinaryString::from(vec![0u8, 255]))).with("cf", Variant::CFrame(CFrame::new(Vector3::new(1.0, 2.0, 3.0), Matrix3::identity()))),
